@@ -2202,12 +2202,13 @@ impl TreeState {
         assert_eq!(added_stats.removed_files, 0);
         assert_eq!(removed_stats.updated_files, 0);
         assert_eq!(removed_stats.added_files, 0);
-        assert_eq!(removed_stats.skipped_files, 0);
+        // A file that should be removed is skipped if its parent directory was
+        // replaced by a file or symlink. It's no longer on disk then.
         Ok(CheckoutStats {
             updated_files: 0,
             added_files: added_stats.added_files,
             removed_files: removed_stats.removed_files,
-            skipped_files: added_stats.skipped_files,
+            skipped_files: added_stats.skipped_files + removed_stats.skipped_files,
         })
     }
 
